@@ -612,6 +612,18 @@ Proof.
   destruct (ref_update A cap b v c); [now apply IH|exact I].
 Qed.
 
+
+(* merge(h1, h2) (and therefore h1 + h2, bulkload) feeds the right operand's bins to update: it is
+   the reference run on those bins *)
+Corollary merge_ref (s1 s2 : st) :
+  Inv s1 -> cache_exact s1 -> Inv s2 -> uniq_trace (cap s1) (bins s1) (bins s2) ->
+  exists s', merge A s1 s2 = Some s' /\ Inv s' /\ cache_exact s' /\
+             ref_feed A (cap s1) (bins s1) (bins s2) = Some (bins s').
+Proof.
+  intros H1 Hc H2 Hu. destruct H2 as (_ & Hp & _).
+  destruct (feed_ref (bins s2) s1 H1 Hc Hp Hu) as (s' & F & I' & C' & _ & R). exists s'. unfold merge. auto.
+Qed.
+
 End RefProofs.
 
 Lemma Qplus_comm_eq (a b : Q) : Qplus a b = Qplus b a.
